@@ -36,6 +36,7 @@ struct WorldSpec
   double range = 3.;
   int drift = 0;     // 0 none, 1 universality condition, 2 linear drift   (op.I(16), absent in older plans)
   int tightNeigh = 0; // moving neighbourhood with a small radius: some targets get too few data  (op.I(17))
+  int nugget = 0;     // a nugget component in the model (op.I(18))
 };
 
 inline WorldSpec specFromOp(const Op& op)
@@ -62,6 +63,7 @@ inline WorldSpec specFromOp(const Op& op)
   w.range = 1.5 + M(op.I(15), 5);
   w.drift = M(op.I(16, 0), 3);
   w.tightNeigh = M(op.I(17, 0), 3) == 2;
+  w.nugget = M(op.I(18, 0), 3) == 1;
   return w;
 }
 
@@ -97,6 +99,12 @@ inline Model* buildModel(const WorldSpec& w, int nvarOverride = -1)
     if (nvar == 2) s2 = {0.4, 0.1, 0.1, 0.3};
     m->addCovFromParam(ECov::EXPONENTIAL, w.range * 2.5, 0.5, 1., VectorDouble(), s2);
   }
+  if (w.nugget)
+  {
+    VectorDouble s3;
+    if (nvar == 2) s3 = {0.3, 0., 0., 0.2};
+    m->addCovFromParam(ECov::NUGGET, 0., 0.25, 1., VectorDouble(), s3);
+  }
   return m;
 }
 
@@ -117,6 +125,7 @@ inline void buildWorld(World& W, const WorldSpec& w)
     VectorDouble tab;
     for (int i = 0; i < np; i++)
       for (int d = 0; d < ndim; d++) tab.push_back(r.uniform(0, w.nx - 1));
+    // (when data must sit on targets, the first data are moved onto the first target points below)
     VectorString names, locs;
     for (int d = 0; d < ndim; d++) { names.push_back(std::string("tx") + char('a' + d)); locs.push_back("x" + std::to_string(d + 1)); }
     W.dbout = Db::createFromSamples(np, ELoadBy::SAMPLE, tab, names, locs, true);
@@ -138,6 +147,11 @@ inline void buildWorld(World& W, const WorldSpec& w)
       usedNodes.insert(node);
       VectorDouble c = grid->getSampleCoordinates((int)node);
       for (int d = 0; d < ndim; d++) p[d] = c[d];
+    }
+    else if (w.onNodes && w.outKind == 1 && i < 4 && i < W.dbout->getSampleNumber())
+    {
+      // point target: the first data coincide with the first target points
+      for (int d = 0; d < ndim; d++) p[d] = W.dbout->getCoordinate(i, d);
     }
     else
       for (int d = 0; d < ndim; d++) p[d] = r.uniform(-0.4, w.nx - 0.6) + 1e-3 * (i + 1);
